@@ -302,6 +302,18 @@ class Interp(MiniEval):
                 return self.env[e.id]
             if e.id in self.stubs:
                 return self.stubs[e.id]
+            if getattr(self, 'class_scope', False) and self.cls:
+                # an expression of a class body sees the names the class body has bound so far (functions, earlier attributes)
+                if f'{self.cls}.{e.id}' in self.mod.functions:
+                    return PkgFunc(self.mod, self.mod.functions[f'{self.cls}.{e.id}'], self.cls, bound=None)
+                cnode_ = self.mod.classes.get(self.cls)
+                for st_ in (cnode_.body if cnode_ is not None else []):
+                    tgt_ = st_.targets[0] if isinstance(st_, ast.Assign) and len(st_.targets) == 1 else (st_.target if isinstance(st_, ast.AnnAssign) else None)
+                    if isinstance(tgt_, ast.Name) and tgt_.id == e.id and getattr(st_, 'value', None) is not None:
+                        ck_ = ('classattr', f'{self.mod.name}.{self.cls}', e.id)
+                        if ck_ not in self.shared:
+                            self.shared[ck_] = self.ev(st_.value)
+                        return self.shared[ck_]
             try:
                 return self.lookup_module_name(self.mod, e.id)
             except KeyError:
@@ -529,7 +541,9 @@ class Interp(MiniEval):
                         if val is not None:
                             ck = ('classattr', c, attr)
                             if ck not in self.shared:
-                                self.shared[ck] = Interp(self.ctx, mn, cn, {}, self.stubs, self.depth + 1, self.shared).ev(val)
+                                sub_ = Interp(self.ctx, mn, cn, {}, self.stubs, self.depth + 1, self.shared)
+                                sub_.class_scope = True
+                                self.shared[ck] = sub_.ev(val)
                             v = self.shared[ck]
                             if isinstance(v, (Closure, PkgFunc)) and not (isinstance(v, PkgFunc) and v.bound is not None):
                                 return Partial(v, [base], {})
@@ -609,7 +623,9 @@ class Interp(MiniEval):
                     if val is not None:
                         ck = ('classattr', c, attr)
                         if ck not in self.shared:
-                            self.shared[ck] = Interp(self.ctx, mn, cn, {}, self.stubs, self.depth + 1, self.shared).ev(val)
+                            sub_ = Interp(self.ctx, mn, cn, {}, self.stubs, self.depth + 1, self.shared)
+                            sub_.class_scope = True
+                            self.shared[ck] = sub_.ev(val)
                         return self.shared[ck]
             if attr == '__name__':
                 return base.qual.split('.')[-1]
